@@ -141,7 +141,7 @@ def err_coq(r):
 
 
 CAUSE_COQ = {"quit": "CQuit", "quitapi": "CQuit", "interrupt": "CInterrupt", "kill": "CKill", "cancel": "CCtx", "panic": "CPanic",
-             "readerr": "CReadErr", "sigint": "CSigInt", "sigterm": "CSigTerm", "startfail": "CStartFail", "cmdpanic": "CPanic"}
+             "readerr": "CReadErr", "sigint": "CSigInt", "sigterm": "CSigTerm", "startfail": "CStartFail", "cmdpanic": "CPanic", "seqpanic": "CPanic"}
 
 
 def events_of(r, *kinds):
@@ -168,7 +168,7 @@ def machinery_problem(r):
 
 POINTS = ["idle", "update", "view", "filter", "filterdrop", "batch", "cmdsend", "init", "exec"]
 EXTRA_POINTS = ["before-run"]
-CAUSES = ["quit", "quitapi", "interrupt", "kill", "cancel", "readerr", "panic", "cmdpanic"]
+CAUSES = ["quit", "quitapi", "interrupt", "kill", "cancel", "readerr", "panic", "cmdpanic", "seqpanic"]
 PENDING = ["none", "senders", "forever", "input", "all"]
 
 
@@ -280,7 +280,7 @@ def lifecycle_scenario(i, cause, point, pending, opts=None, after_api=False, bef
             sc["init_ctl"]["panic"] = True
         else:
             return None
-    if cause == "cmdpanic" and point == "init":
+    if cause in ("cmdpanic", "seqpanic") and point == "init":
         return None
     # (Kill while Init runs is after renderer.start(): inside the model.  Kill racing the lines of Run before that is
     #  outside every property: p.renderer / p.handlers are written unsynchronised there.)
@@ -326,6 +326,10 @@ def lifecycle_scenario(i, cause, point, pending, opts=None, after_api=False, bef
         script.append(DO("close-input"))
     elif cause == "cmdpanic":
         script.append(DO("go-send", msg=B("batch", cmds=[cmd(21, panic=True)])))
+    elif cause == "seqpanic":
+        # the panicking command is an element of a Sequence, or a member of a batch inside one
+        inner = cmd(21, panic=True) if i % 2 == 0 else batch(cmd(22, ret=U(52)), cmd(21, panic=True))
+        script.append(DO("go-send", msg=B("sequence", cmds=[cmd(23, ret=U(53)), inner, cmd(24, ret=U(54))])))
     elif cause == "panic":
         pass
     elif cause in ("sigint", "sigterm"):
@@ -348,7 +352,7 @@ def lifecycle_scenario(i, cause, point, pending, opts=None, after_api=False, bef
         script.append(DO("sleep", us=10000))
     if label:
         script.append(DO("release", label=label, all=True))
-    if point == "batch" and cause in ("quit", "quitapi", "interrupt", "cmdpanic", "readerr"):
+    if point == "batch" and cause in ("quit", "quitapi", "interrupt", "cmdpanic", "seqpanic", "readerr"):
         # these causes are messages behind the paused one: they need the loop to come round
         pass
     script.append(W("returned"))
